@@ -131,7 +131,7 @@ impl Head {
         let name_string = String::from_utf8(name_bytes.to_vec()).unwrap();
         let value_string = Self::latin1_bytes_to_utf8(trim_whitespace(value_bytes));
         let name = AsciiString::try_from(name_string).unwrap();
-        let value = AsciiString::try_from(value_string).unwrap();
+        let value = AsciiString::try_from(value_string).map_err(|_| HeadError::MalformedHeader)?;
         Ok(Header::new(name, value))
     }
 
